@@ -548,6 +548,15 @@ theorem onResultStart_ok {loc : Loc} {w w' : WriterState} {x : Except WriterErr 
   | error e => simp [onResultStart] at h
   | ok r => simp only [onResultStart] at h; injection h with h; subst h; rfl
 
+theorem addEntryAt_ok {idx : Nat} {e : Entry} {x y : Result} (h : addEntryAt idx e x = .ok y) :
+    y = { x with steps := modifyNth (addEntryToStep e) idx x.steps } := by
+  unfold addEntryAt at h
+  split at h
+  · cases h
+  · split at h
+    · cases h
+    · injection h with h; exact h.symm
+
 /-- `_add_step_log` -/
 theorem addEntry_report (w w' : WriterState) (loc : Loc) (tid : Nat) (e : Entry)
     (h0 : w.report.endTime = none) (hs : refOpen w tid = true) (h : addEntry w loc tid e = .ok w') :
@@ -559,21 +568,21 @@ theorem addEntry_report (w w' : WriterState) (loc : Loc) (tid : Nat) (e : Entry)
     · cases h
     · rename_i ref hl
       split at h
-      · cases h
       · split at h
+        · cases h
         · injection h with h; subst h; exact prefixB_refl _
-        · rename_i l idx htg
-          split at h
-          · rename_i r' hm
-            injection h with h
-            subst h
-            simp only [refOpen, hl, htg] at hs
-            exact modifyResult_prefix _ _
-              (fun x y hg hxy => by
-                injection hxy with hxy
-                subst hxy
-                exact openStep_modify _ (addEntry_prefix e) idx x hg) l w.report r' h0 hs hm
-          · cases h
+      · rename_i l idx htg
+        split at h
+        · rename_i r' hm
+          injection h with h
+          subst h
+          simp only [refOpen, hl, htg] at hs
+          exact modifyResult_prefix _ _
+            (fun x y hg hxy => by
+              rw [addEntryAt_ok hxy]
+              exact openStep_modify _ (addEntry_prefix e) idx x hg) l w.report r' h0 hs hm
+        · cases h
+        · cases h
 
 /-- `add_test` of a test whose name is new in its (open) suite -/
 theorem addTest_prefix (parent : Path) (tr : TestResult) (r r' : Report) (h0 : r.endTime = none)
